@@ -26,8 +26,7 @@ pub open spec fn diff_pre<Old: Index<usize> + ?Sized, New: Index<usize> + ?Sized
 
 /// C08: the hook is failed exactly when the call returns an error, and that error is the hook's
 pub open spec fn err_post<D: DiffHook>(d0: D, d1: D, res: Result<(), D::Error>) -> bool {
-    d1.failed() == res.is_err() && d1.relies() == d0.relies() && d1.rely_rel() == d0.rely_rel()
-    && (res matches Err(e) ==> d1.last_err() == Some(e))
+    hook_frame(d0, d1, res)
 }
 
 /// C01: on success the hook has received exactly a valid script segment for the box, then `tail`
@@ -53,7 +52,7 @@ pub proof fn lemma_run_fin<D: DiffHook>(rel: Rel, st: St, s: Seq<Ev>)
 
 /// the running invariant of an algorithm body: the hook has received the segment `s` so far
 pub open spec fn alg_inv<D: DiffHook>(d: D, d0: D, t0: Seq<Ev>, s: Seq<Ev>, rel: Rel, rs0: St, o0: int, n0: int, oc: int, nc: int) -> bool {
-    seg_rel(rel, s, o0, n0, oc, nc) && d.trace() == t0 + s && !d.failed() && d.relies() == d0.relies() && d.rely_rel() == d0.rely_rel()
+    seg_rel(rel, s, o0, n0, oc, nc) && d.trace() == t0 + s && !d.failed() && d.relies() == d0.relies() && d.rely_rel() == d0.rely_rel() && d.accepts_replace() == d0.accepts_replace()
     && (d0.relies() ==> d.rely_st() == run_rel(d0.rely_rel(), rs0, s))
 }
 
